@@ -22,7 +22,7 @@ import (
 
 const (
 	tieSched     = "bus-schedules"
-	tieSchedRule = "K4: macro moves (start a Send, release a goroutine parked at bus.send.afterSnapshot / bus.send.beforeListener / listener.send.locked (holding the read lock) / bus.listen.beforeRegister / listener.stop.enter, cancel a listen context, cancel a send context, post one receive) chosen at random among those applicable, executed on the real minibus.Bus with 1-3 senders and 0-3 listeners; after every move the harness waits until every goroutine is parked at a yield point or blocked (wait reason from runtime.Stack: select / sync.RWMutex.RLock / sync.RWMutex.Lock / chan receive; no timeouts decide an outcome) and reports per sender {idle+results, parked where (a/b/k), blocked on RLock, blocked in select}, per listener {Listen parked/returned, watcher awaiting/parked/blocked on Lock/gone, events received, receive pending, close seen}; the Lean model must have a configuration reachable by the same macro move (all interleavings and select choices of the released goroutines) with exactly this observation. one evaluation = one schedule (all its steps agree); non-trivial = the schedule contains a cancel while some sender is inside Send; distinct = distinct op sequences"
+	tieSchedRule = "K4: macro moves (start a Send, release a goroutine parked at bus.send.afterSnapshot / bus.send.beforeListener / listener.send.locked (holding the read lock) / bus.collect.scanned (inside collect, holding the bus write lock: a Listen or Send attempted meanwhile must be observed blocked) / bus.listen.beforeRegister / listener.stop.enter, cancel a listen context, cancel a send context, post one receive) chosen at random among those applicable, executed on the real minibus.Bus with 1-3 senders and 0-3 listeners; after every move the harness waits until every goroutine is parked at a yield point or blocked (wait reason from runtime.Stack: select / sync.RWMutex.RLock / sync.RWMutex.Lock / chan receive; no timeouts decide an outcome) and reports per sender {idle+results, parked where (a/b/k), blocked on RLock, blocked in select}, per listener {Listen parked/returned, watcher awaiting/parked/blocked on Lock/gone, events received, receive pending, close seen}; the Lean model must have a configuration reachable by the same macro move (all interleavings and select choices of the released goroutines) with exactly this observation. one evaluation = one schedule (all its steps agree); non-trivial = the schedule contains a cancel while some sender is inside Send; distinct = distinct op sequences"
 )
 
 type SchedCase struct {
@@ -106,7 +106,7 @@ func allStates() map[int64]string {
 
 func (c *ctl) handler(point string) {
 	switch point {
-	case "bus.send.afterSnapshot", "bus.send.beforeListener", "bus.listen.beforeRegister", "listener.stop.enter", "listener.send.locked":
+	case "bus.send.afterSnapshot", "bus.send.beforeListener", "bus.listen.beforeRegister", "listener.stop.enter", "listener.send.locked", "bus.collect.scanned":
 	default:
 		return
 	}
@@ -152,6 +152,8 @@ func (c *ctl) status() (obs string, stable bool) {
 				st = "a"
 			case "listener.send.locked":
 				st = "k"
+			case "bus.collect.scanned":
+				st = "c"
 			default:
 				st = "b"
 			}
@@ -238,6 +240,8 @@ func (c *ctl) status() (obs string, stable bool) {
 				lp = "+"
 			} else if c.parked[l.gid] != nil {
 				lp = "p"
+			} else if lockWait(states[l.gid]) {
+				lp = "B" // released, waiting for the bus lock (a collect is parked inside it)
 			} else {
 				lp = "?"
 				stable = false
@@ -313,6 +317,7 @@ func (c *ctl) settle(bound time.Duration) (string, bool) {
 func (c *ctl) applicable(obs string) []string {
 	var ops []string
 	parts := strings.Split(obs, ";")
+	collecting := strings.Contains(obs, "=c:") // a sender is parked inside collect (holding the bus lock)
 	c.mu.Lock()
 	defer c.mu.Unlock()
 	for t, s := range c.ss {
@@ -322,13 +327,15 @@ func (c *ctl) applicable(obs string) []string {
 			if s.sent < cap(s.cmd) {
 				ops = append(ops, fmt.Sprintf("send %d", t), fmt.Sprintf("send %d", t))
 			}
+		case 'c':
+			ops = append(ops, fmt.Sprintf("S %d", t))
 		case 'a', 'b', 'k':
 			ops = append(ops, fmt.Sprintf("S %d", t), fmt.Sprintf("S %d", t), fmt.Sprintf("S %d", t))
-			if s.cancel != nil {
+			if s.cancel != nil && !collecting {
 				ops = append(ops, fmt.Sprintf("cancelSend %d", t))
 			}
 		case 'r', 's':
-			if s.cancel != nil {
+			if s.cancel != nil && !collecting {
 				ops = append(ops, fmt.Sprintf("cancelSend %d", t))
 			}
 		}
@@ -501,7 +508,7 @@ func runSched(sc Scenario, drv *lib.Driver) (out Outcome) {
 	model, code := "", ""
 	nontrivial := false
 	step := func(op string) bool {
-		if strings.HasPrefix(op, "cancel ") && strings.ContainsAny(strings.SplitN(obs, ";L", 2)[0], "abkrs") {
+		if strings.HasPrefix(op, "cancel ") && strings.ContainsAny(strings.SplitN(obs, ";L", 2)[0], "abckrs") {
 			nontrivial = true
 		}
 		if strings.HasPrefix(op, "cancel ") {
@@ -533,6 +540,10 @@ func runSched(sc Scenario, drv *lib.Driver) (out Outcome) {
 				o.count("tie:seen:sender-blocked-on-RLock")
 			case part[0] == 'S' && v[0] == 's':
 				o.count("tie:seen:sender-blocked-in-select")
+			case part[0] == 'L' && v[0] == 'B':
+				o.count("tie:seen:Listen-blocked-while-collect-parked")
+			case part[0] == 'S' && v[0] == 'c':
+				o.count("tie:seen:sender-parked-inside-collect")
 			case part[0] == 'L' && v[1] == 'w':
 				o.count("tie:seen:watcher-blocked-on-Lock")
 			case part[0] == 'L' && strings.HasSuffix(v, "x"):
